@@ -39,3 +39,14 @@ func Run(opt engine.Options, define func(api frontend.API) error) engine.Result 
 	}
 	return res
 }
+
+// Protect runs f (a compilation with a real gnark builder, or gnark's own test engine)
+// while holding the same read lock as engine runs: the repository caches one chip per api
+// object in a global map, and resetting that map in the middle of a compilation would make
+// the repository create a second chip (with its own, smaller list of collected checks) for
+// the same builder.
+func Protect(f func()) {
+	mu.RLock()
+	defer mu.RUnlock()
+	f()
+}
